@@ -26,6 +26,7 @@ def classify_trace(S: Sem, c: ast.Call) -> Dict[str, object]:
     at = S.du.node_of_expr(c)
     inn = S.resolve(c.args[1], at)
     out = S.resolve(c.args[2], at)
+    inn, out = _canon_band_sets(inn, out)
     res: Dict[str, object] = {"kind": "other", "inn": norm(inn), "out": norm(out)}
     m = pmatch(inn, "np.arange(P, Q)", {"P", "Q"})
     if m and m[0][0] is inn:
@@ -41,6 +42,36 @@ def classify_trace(S: Sem, c: ast.Call) -> Dict[str, object]:
         if P == "0" and mo and mo[0][0] is out:
             res.update(kind="sea", P=P, Q=Q, NB=mo[0][1]["NBX"])
     return res
+
+
+def _canon_band_sets(inn: ast.AST, out: ast.AST):
+    """(inn, out) rewritten to the arange forms when they are selections from one np.arange(NB):
+         A[(A >= P) & (A < Q)] , A[~(…)]   →  np.arange(P, Q) , np.concatenate((np.arange(0, P), np.arange(Q, NB)))
+         A[:N] , A[N:]                      →  np.arange(0, N) , np.arange(N, NB)"""
+    def arange_n(x):
+        return norm(x.args[0]) if isinstance(x, ast.Call) and call_name(x) in ("np.arange", "numpy.arange") and len(x.args) == 1 and not x.keywords else None
+    if not (isinstance(inn, ast.Subscript) and isinstance(out, ast.Subscript) and norm(inn.value) == norm(out.value) and arange_n(inn.value) is not None):
+        return inn, out
+    NB = arange_n(inn.value)
+    A = norm(inn.value)
+    mi, mo = inn.slice, out.slice
+    if isinstance(mi, ast.Slice) and isinstance(mo, ast.Slice) and mi.lower is None and mi.upper is not None and mi.step is None \
+            and mo.upper is None and mo.lower is not None and mo.step is None and norm(mi.upper) == norm(mo.lower):
+        n_ = norm(mi.upper)
+        return ast.parse(f"np.arange(0, {n_})", mode="eval").body, ast.parse(f"np.arange({n_}, {NB})", mode="eval").body
+    neg = mo.operand if isinstance(mo, ast.UnaryOp) and isinstance(mo.op, ast.Invert) else None
+    if neg is not None and norm(neg) == norm(mi) and isinstance(mi, ast.BinOp) and isinstance(mi.op, ast.BitAnd):
+        lo = hi = None
+        for t in (mi.left, mi.right):
+            if isinstance(t, ast.Compare) and len(t.ops) == 1 and norm(t.left) == A:
+                if isinstance(t.ops[0], ast.GtE):
+                    lo = norm(t.comparators[0])
+                elif isinstance(t.ops[0], ast.Lt):
+                    hi = norm(t.comparators[0])
+        if lo is not None and hi is not None:
+            return ast.parse(f"np.arange({lo}, {hi})", mode="eval").body, \
+                ast.parse(f"np.concatenate((np.arange(0, {lo}), np.arange({hi}, {NB})))", mode="eval").body
+    return inn, out
 
 
 def same_group(P: str, Q: str) -> Optional[str]:
